@@ -365,9 +365,17 @@ impl Hooks for Ctl {
 /// Runs controlled tasks until none is runnable.  Every iteration lets tokio drain its own queue
 /// (shells, timers) once.
 pub async fn run_until_quiescent(shared: &Sh, max_steps: usize) -> Result<usize, String> {
+    run_until(shared, max_steps, &|_| false).await
+}
+
+/// Like `run_until_quiescent`, but also stops (before the next step) as soon as `stop` holds.
+pub async fn run_until(shared: &Sh, max_steps: usize, stop: &dyn Fn(&Shared) -> bool) -> Result<usize, String> {
     let mut steps = 0;
     let mut idle_rounds = 0;
     loop {
+        if stop(&shared.lock().unwrap()) {
+            return Ok(steps);
+        }
         let id = {
             let mut s = shared.lock().unwrap();
             let r = s.runnable_sorted();
